@@ -47,6 +47,19 @@ const (
 	c46Patience = 60 * time.Second
 )
 
+// Documented proposal validity per action type (doc comments of the
+// *ProposalValidityBlocks constants: "the worst-case time ... during which the
+// wallet is busy and cannot take another actions"), counted from the action
+// start. Stated here independently of the code: the expiry the production code
+// derives for an action is judged against this table.
+var c46DocumentedValidity = map[WalletActionType]uint64{
+	ActionHeartbeat:       600,  // "The value of 600 blocks is roughly 2 hours"
+	ActionDepositSweep:    1200, // "The value of 1200 blocks is roughly 4 hours"
+	ActionRedemption:      600,  // "The value of 600 blocks is roughly 2 hours"
+	ActionMovingFunds:     650,  // "The value of 650 blocks is roughly 2 hours and 10 minutes"
+	ActionMovedFundsSweep: 600,  // "The value of 600 blocks is roughly 2 hours"
+}
+
 var c46Actions = []WalletActionType{ActionHeartbeat, ActionDepositSweep, ActionRedemption, ActionMovingFunds, ActionMovedFundsSweep}
 
 // --- logical block clock and observation of the blocks the real code waits for ---
@@ -990,6 +1003,9 @@ func TestVerif_C46_SigningWindow(t *testing.T) {
 		if run.signTimeout > run.expiry || run.expiry-run.signTimeout < margin {
 			t.Fatalf("%s: signing may run until block %d, less than the documented %d blocks before expiry %d", desc, run.signTimeout, margin, run.expiry)
 		}
+		if documentedExpiry := start + c46DocumentedValidity[action]; run.signTimeout+margin > documentedExpiry {
+			t.Fatalf("%s: signing may run until block %d, less than the documented %d blocks before the documented expiry %d (start + %d blocks of validity for %v)", desc, run.signTimeout, margin, documentedExpiry, c46DocumentedValidity[action], action)
+		}
 		if run.loopEnd <= run.signStart {
 			t.Fatalf("%s: empty retry loop", desc)
 		}
@@ -1146,6 +1162,17 @@ func TestVerif_C46_CoordinationGlue(t *testing.T) {
 		if loopEnd > signingTimeout {
 			t.Fatalf("%s: one complete signing retry loop of a single message ends at block %d, after the signing deadline %d the node's glue gives the action", desc, loopEnd, signingTimeout)
 		}
-		st.Case(true, desc, "action:"+action.String(), "window:"+indexClass, fmt.Sprintf("slack-blocks:%d", signingTimeout-loopEnd))
+		// the expiry the glue derives for this proposal type, judged against
+		// the documented validity of the action type: the signing phase ends
+		// at least the documented margin before the DOCUMENTED expiry
+		margin := uint64(c46DocumentedSigningMargin)
+		if action == ActionHeartbeat {
+			margin = c46DocumentedClaimValidity
+		}
+		documentedExpiry := actionStart + c46DocumentedValidity[action]
+		if signingTimeout+margin > documentedExpiry {
+			t.Fatalf("%s: signing may run until block %d; the %v proposal is documented to expire at block %d (action start + %d), which leaves %d of the documented %d margin blocks", desc, signingTimeout, action, documentedExpiry, c46DocumentedValidity[action], int64(documentedExpiry)-int64(signingTimeout), margin)
+		}
+		st.Case(true, desc, "action:"+action.String(), "window:"+indexClass, fmt.Sprintf("slack-blocks:%d", signingTimeout-loopEnd), fmt.Sprintf("blocks-before-documented-expiry:%d", documentedExpiry-signingTimeout))
 	})
 }
